@@ -29,7 +29,25 @@
 //                        Groups::evalArguments and removes the handlers (removeArgHandler each / removeAllArgHandler).
 //                        It is the only user of the process-wide Groups object; the other threads' handlers are
 //                        stand-alone and must not notice it.
+//   file t=<k> mode=<argfile|progarg|env> [hold=1]
+//                        the thread takes (part of) its arguments from a SOURCE OF ITS OWN beside its command line:
+//                        argfile: Handler::addArgumentFile( "arg-file"), the word `@file` on its command line stands for the
+//                                 path of the thread's own file;  progarg: handler flag hfReadProgArg, argv[0] = prog_t<k>, the
+//                                 file is $HOME/.progargs/prog_t<k>.pa (HOME = a scratch directory of this process);
+//                        env: handler flag hfEnvVarArgs, argv[0] = prog_t<k>, the variable is PROG_T<k>.
+//                        While such a source is evaluated the handler is in another "read mode" (Handler::mReadMode, set by
+//                        readArgumentFile() / checkReadEnvVarArgs(), read by handleIdentifiedArg(): no cardinality check
+//                        for values from a file / the environment) -- state of THAT handler, no other thread may notice.
+//                        hold=1: the handler has a callable argument `--hold`; where it stands in the file / variable the
+//                        thread is provably in the middle of its source (forced schedule, see `run`)
+//   fline t=<k> n=<count> <word>...
+//                        one line of the thread's file, written <count> times (env: all lines joined by blanks)
 //   run n=<threads> reps=<r> seed=<s> [forced=1]
+//       with `file` threads, forced=1: harness-level forced schedule (whole API calls ordered, no library sync point
+//       needed): the plain threads run their whole job while every file thread is inside its `--hold` callable, i.e.
+//       between entering and leaving readArgumentFile() / checkReadEnvVarArgs(); the file threads go on when all plain
+//       threads are done (time-outs instead of dead locks).  Deterministic, so only the result oracle speaks; the
+//       free-running cases (long files, more repetitions) are for TSan.
 //       with a group thread, forced=1: the stand-alone threads start their job when the group thread has registered its
 //       handlers and defined their arguments (first loop), and the group thread evaluates / removes them only when all
 //       stand-alone threads are done (harness-level ordering of whole API calls; time-outs instead of dead locks)
@@ -54,6 +72,9 @@
 
 #include <chrono>
 #include <cstring>
+#include <fstream>
+#include <sys/stat.h>
+#include <unistd.h>
 
 #include "celma/prog_args.hpp"
 #include "celma/prog_args/groups.hpp"
@@ -92,6 +113,13 @@ struct GroupForce {
    std::atomic<int> registered{0}, standaloneDone{0}, nStandalone{0};
 };
 static GroupForce g_gforce;
+// forced schedule "plain jobs while the file threads are in the middle of their argument file / environment variable"
+struct FileForce {
+   std::atomic<bool> on{false};
+   std::atomic<int> nFile{0}, nPlain{0}, inside{0}, plainDone{0};
+};
+static FileForce g_fforce;
+static std::string g_home;   // scratch HOME of this process (both sanitizer builds run in the same work directory)
 // the streams of the process-wide Groups object (only the group thread can make it write)
 static std::ostringstream* g_groupOut = new std::ostringstream;
 static std::ostringstream* g_groupErr = new std::ostringstream;
@@ -153,7 +181,37 @@ struct ThreadSpec {
    bool group = false;             // group thread
    int gHandlers = 1, gLoops = 1, gBrackets = -1;
    bool gRemoveAll = false;
+   std::string src;                // "" | argfile | progarg | env: a source of arguments beside the command line
+   bool hold = false;              // callable argument --hold
+   std::vector<std::pair<int, std::string>> flines;   // (count, text) lines of the file / words of the variable
 };
+
+static std::string filePathOf(const ThreadSpec& ts, int t) {
+   if (ts.src == "progarg") return g_home + "/.progargs/prog_t" + std::to_string(t) + ".pa";
+   return g_home + "/args_t" + std::to_string(t) + ".txt";
+}
+static std::string envNameOf(int t) { return "PROG_T" + std::to_string(t); }
+
+/// writes the file / sets the variable of a `file` thread (main thread, no other thread running)
+static bool provideSource(const ThreadSpec& ts, int t) {
+   if (ts.src.empty()) return true;
+   if (ts.src == "env") {
+      std::string v;
+      for (auto const& fl : ts.flines) for (int i = 0; i < fl.first; ++i) { if (!v.empty()) v += ' '; v += fl.second; }
+      return ::setenv(envNameOf(t).c_str(), v.c_str(), 1) == 0;
+   }
+   ::mkdir(g_home.c_str(), 0700);
+   ::mkdir((g_home + "/.progargs").c_str(), 0700);
+   std::ofstream f(filePathOf(ts, t), std::ios::trunc);
+   for (auto const& fl : ts.flines) for (int i = 0; i < fl.first; ++i) f << fl.second << "\n";
+   f.close();
+   return static_cast<bool>(f);
+}
+static void removeSource(const ThreadSpec& ts, int t) {
+   if (ts.src.empty()) return;
+   if (ts.src == "env") ::unsetenv(envNameOf(t).c_str());
+   else ::unlink(filePathOf(ts, t).c_str());
+}
 
 // destination variables of one argument, owned by the thread that runs the job
 struct Dest {
@@ -271,19 +329,37 @@ static std::string destText(const ThreadSpec& ts, const std::vector<Dest>& dests
 }
 
 /// the whole job of one thread: own handler, own destinations, own command line
-static std::string job(const ThreadSpec& ts, bool ownStreams) {
+static std::string job(const ThreadSpec& ts, bool ownStreams, int t) {
    std::vector<Dest> dests(ts.args.size());
    std::ostringstream out, err;
    int brOpen = 0, brClose = 0;   // live as long as the handler
+   int holds = 0;                 // calls of the --hold callable (from the thread's own file / variable)
+   bool counted = false;          // this file thread has been counted as "inside its source" (or as finished)
+   struct CountAtExit {           // a file thread that never gets to its --hold must not keep the plain threads waiting
+      bool& counted; bool isFile;
+      ~CountAtExit() { if (isFile && !counted && g_fforce.on.load(std::memory_order_acquire)) { counted = true; g_fforce.inside.fetch_add(1); } }
+   } countAtExit{counted, !ts.src.empty()};
    std::unique_ptr<pa::Handler> ah;
    // the call `addBracketHandler` of the thread model (Lemmas/InterleaveApi.lean, `Api`): guarded use of the group
    // singleton in Handler::addBracketHandler; the handlers capture variables of this thread only
    const int brAt = ts.bracketAt >= 0 ? std::min<int>(ts.bracketAt, static_cast<int>(ts.args.size()))
                                       : (ownStreams && !ts.help ? 0 : -1);
    try {
+      const int srcFlag = ts.src == "progarg" ? pa::Handler::hfReadProgArg : ts.src == "env" ? pa::Handler::hfEnvVarArgs : 0;
       if (ts.help) ah.reset(new pa::Handler(out, err, pa::Handler::hfHelpShort | pa::Handler::hfUsageCont));
-      else if (ownStreams) ah.reset(new pa::Handler(out, err, 0));
-      else ah.reset(new pa::Handler(0));
+      else if (ownStreams) ah.reset(new pa::Handler(out, err, srcFlag));
+      else ah.reset(new pa::Handler(srcFlag));
+      if (ts.src == "argfile") ah->addArgumentFile("arg-file");
+      if (ts.hold)
+         ah->addArgument("hold", pa::destination(pa::detail::ArgHandlerCallable([&holds, &counted](bool) {
+            ++holds;
+            if (!g_fforce.on.load(std::memory_order_acquire) || counted) return;
+            // forced schedule: this thread is inside readArgumentFile() / checkReadEnvVarArgs() now; every plain thread
+            // runs its whole job before it goes on
+            counted = true;
+            g_fforce.inside.fetch_add(1);
+            waitFor([] { return g_fforce.plainDone.load() >= g_fforce.nPlain.load(); }, 5000);
+         }), "hold"), "holds the thread inside its argument source");
       for (size_t k = 0; k <= ts.args.size(); ++k) {
          if (static_cast<int>(k) == brAt) ah->addBracketHandler([&brOpen]() { ++brOpen; }, [&brClose]() { ++brClose; });
          if (k == ts.args.size()) break;
@@ -309,8 +385,8 @@ static std::string job(const ThreadSpec& ts, bool ownStreams) {
    }
    // own copy of the command line (the handler may keep pointers into it)
    std::vector<std::string> words;
-   words.push_back("prog");
-   for (auto const& w : ts.argv) words.push_back(w);
+   words.push_back(ts.src.empty() ? std::string("prog") : "prog_t" + std::to_string(t));
+   for (auto const& w : ts.argv) words.push_back(!ts.src.empty() && w == "@file" ? filePathOf(ts, t) : w);
    std::vector<char*> av;
    for (auto& w : words) av.push_back(&w[0]);
    av.push_back(nullptr);
@@ -326,6 +402,7 @@ static std::string job(const ThreadSpec& ts, bool ownStreams) {
    }
    std::string res = destText(ts, dests);
    if (brOpen || brClose) res += "/br=" + std::to_string(brOpen) + ":" + std::to_string(brClose);
+   if (holds) res += "/hold=" + std::to_string(holds);
    if (ts.help) {
       const std::string u = out.str() + "\x01" + err.str();
       res += "/usage=" + std::to_string(u.size()) + ":" + std::to_string(std::hash<std::string>{}(u) % 1000000007ull);
@@ -427,6 +504,20 @@ static std::string runAll(int n, int reps, uint64_t seed, bool forced) {
       for (auto const& w : specs[t].argv) if (specs[t].help && w == "-h") { ++nAsk; break; }
    }
    if (nGroup > 1) return "bad-op";   // two users of one Groups object are not independent handlers
+   int nFile = 0;                 // threads with an argument file / environment variable of their own
+   for (int t = 0; t < n; ++t) {
+      if (specs[t].src.empty()) continue;
+      ++nFile;
+      if (specs[t].group || specs[t].help) return "bad-op";
+   }
+   if (nFile > 0 && (nGroup > 0 || nHelp > 0)) return "bad-op";   // one kind of forced schedule per case
+   struct Sources {               // files written / variables set before any thread runs, removed afterwards
+      const std::vector<ThreadSpec>& sp; bool ok = true;
+      explicit Sources(const std::vector<ThreadSpec>& s) : sp(s) { for (size_t t = 0; t < sp.size(); ++t) ok = provideSource(sp[t], static_cast<int>(t)) && ok; }
+      ~Sources() { for (size_t t = 0; t < sp.size(); ++t) removeSource(sp[t], static_cast<int>(t)); }
+   } sources(specs);
+   if (!sources.ok) return "bad-op cannot write the argument file";
+   g_fforce.on.store(false, std::memory_order_release);
    installHook(nHelp > 0);      // counts constructions; forces the schedule only while g_force.on
    const bool usesGroups = nHelp > 0 || nGroup > 0;
    g_gforce.on.store(false, std::memory_order_release);
@@ -434,7 +525,7 @@ static std::string runAll(int n, int reps, uint64_t seed, bool forced) {
    std::vector<std::string> alone(n);
    for (int t = 0; t < n; ++t) {
       if (usesGroups) pa::Groups::reset();
-      alone[t] = specs[t].group ? groupJob(specs[t], t) : job(specs[t], t % 2 == 1);
+      alone[t] = specs[t].group ? groupJob(specs[t], t) : job(specs[t], t % 2 == 1, t);
       if (alone[t].compare(0, 4, "bad-") == 0) return "bad-op";
    }
    const unsigned tsanBefore = g_tsan_reports.load();
@@ -450,6 +541,10 @@ static std::string runAll(int n, int reps, uint64_t seed, bool forced) {
          g_force.expected = nAsk; g_force.atLock = 0; g_force.leftLocked = 0; g_force.constructs = 0; g_force.victims = 0;
          g_force.on.store(forced, std::memory_order_release);
       }
+      if (nFile > 0) {
+         g_fforce.nFile = nFile; g_fforce.nPlain = n - nFile; g_fforce.inside = 0; g_fforce.plainDone = 0;
+         g_fforce.on.store(forced, std::memory_order_release);
+      }
       std::vector<std::string> got(n);
       std::atomic<int> arrived{0};
       std::atomic<bool> go{false};
@@ -464,7 +559,11 @@ static std::string runAll(int n, int reps, uint64_t seed, bool forced) {
             if (specs[t].group) { got[t] = groupJob(specs[t], t); return; }
             const bool held = g_gforce.on.load(std::memory_order_acquire);
             if (held) waitFor([] { return g_gforce.registered.load(std::memory_order_acquire) != 0; }, 5000);
-            got[t] = job(specs[t], t % 2 == 1);
+            // forced schedule with file threads: a plain thread runs when every file thread is inside its source
+            const bool fheld = g_fforce.on.load(std::memory_order_acquire) && specs[t].src.empty();
+            if (fheld) waitFor([] { return g_fforce.inside.load() >= g_fforce.nFile.load(); }, 5000);
+            got[t] = job(specs[t], t % 2 == 1, t);
+            if (fheld) g_fforce.plainDone.fetch_add(1);
             if (held) g_gforce.standaloneDone.fetch_add(1);
          });
       }
@@ -473,6 +572,7 @@ static std::string runAll(int n, int reps, uint64_t seed, bool forced) {
       for (auto& x : th) x.join();
       g_force.on.store(false, std::memory_order_release);
       g_gforce.on.store(false, std::memory_order_release);
+      g_fforce.on.store(false, std::memory_order_release);
       if (nHelp > 0 && g_force.constructs.load() > 1) {
          std::ostringstream os;
          os << "!! interference through Singleton<Groups>: constructed " << g_force.constructs.load()
@@ -506,11 +606,17 @@ static std::string runAll(int n, int reps, uint64_t seed, bool forced) {
 }
 
 int main() {
+   {  // scratch HOME of this process ($HOME/.progargs/<prog>.pa is what hfReadProgArg reads); set before any thread exists
+      char cwd[4096];
+      g_home = std::string(::getcwd(cwd, sizeof cwd) ? cwd : ".") + "/home_mt_" + std::to_string(static_cast<long>(::getpid()));
+      ::setenv("HOME", g_home.c_str(), 1);
+   }
    return vh::run([&](const std::vector<std::string>& tk, const std::string&) -> std::string {
       if (tk.empty()) return "bad-op";
       if (tk[0] == "case") { g_specs.clear(); return "ok"; }
       try {
-         if (tk[0] == "arg" || tk[0] == "hc" || tk[0] == "argv" || tk[0] == "help" || tk[0] == "bracket" || tk[0] == "group") {
+         if (tk[0] == "arg" || tk[0] == "hc" || tk[0] == "argv" || tk[0] == "help" || tk[0] == "bracket" || tk[0] == "group" ||
+             tk[0] == "file" || tk[0] == "fline") {
             const std::string ts = vh::kv(tk, "t");
             if (ts.empty()) return "bad-op";
             int t = std::stoi(ts);
@@ -519,6 +625,30 @@ int main() {
             if (tk[0] == "help") {
                if (tk.size() != 2) return "bad-op";
                sp.help = true;
+               return "ok";
+            }
+            if (tk[0] == "file") {
+               // file t=<k> mode=<argfile|progarg|env> [hold=0|1]
+               if (tk.size() < 3 || tk.size() > 4 || tk[1] != "t=" + ts) return "bad-op";
+               for (size_t i = 1; i < tk.size(); ++i) {
+                  const std::string k = tk[i].substr(0, tk[i].find('='));
+                  if (k != "t" && k != "mode" && k != "hold") return "bad-op";
+               }
+               const std::string m = vh::kv(tk, "mode"), h = vh::kv(tk, "hold", "0");
+               if ((m != "argfile" && m != "progarg" && m != "env") || (h != "0" && h != "1")) return "bad-op";
+               sp.src = m; sp.hold = h == "1";
+               return "ok";
+            }
+            if (tk[0] == "fline") {
+               // fline t=<k> n=<1..2000> <word>...
+               if (tk.size() < 4 || tk[1] != "t=" + ts || tk[2].compare(0, 2, "n=") != 0) return "bad-op";
+               const std::string c = tk[2].substr(2);
+               if (c.empty() || c.size() > 4 || c.find_first_not_of("0123456789") != std::string::npos) return "bad-op";
+               const int cnt = std::stoi(c);
+               if (cnt < 1 || cnt > 2000) return "bad-op";
+               std::string text;
+               for (size_t i = 3; i < tk.size(); ++i) { if (i > 3) text += ' '; text += tk[i]; }
+               sp.flines.emplace_back(cnt, text);
                return "ok";
             }
             if (tk[0] == "bracket") {
